@@ -1,6 +1,7 @@
 package sim
 
 import (
+	"fmt"
 	"math/big"
 	"strings"
 
@@ -92,7 +93,20 @@ func (g *Gen) separator(spaceOnly bool) string {
 
 func genP05(g *Gen, p *Program) {
 	g.sharedPool(p, 200)
-	ne := g.R.Range(1, 2)
+	// a few literals recur within the run, also across epochs, i.e. across
+	// legal changes of DefaultRoundingMode; some of them are short literals
+	// whose value depends on the mode (subnormal window, ties)
+	for i := g.R.Range(2, 5); i > 0; i-- {
+		switch g.R.N(4) {
+		case 0:
+			g.lits = append(g.lits, fmt.Sprintf("%s%de-%d", []string{"", "-", "+"}[g.R.N(3)], g.R.Range(1, 99999), 6176+g.R.Range(0, 6)))
+		case 1:
+			g.lits = append(g.lits, fmt.Sprintf("%s0.%se-6176", []string{"", "-"}[g.R.N(2)], g.digits(g.R.Range(1, 6))))
+		default:
+			g.lits = append(g.lits, g.ValidLiteral(true, true))
+		}
+	}
+	ne := g.R.Range(1, 3)
 	for e := 0; e < ne; e++ {
 		ep := Epoch{Mode: g.epochMode(4)}
 		// direct entry points
